@@ -366,6 +366,19 @@ def inline_new_locals(fn: ast.AST, ref_locals: Set[str], keep: Set[str] = frozen
     return done
 
 
+def drop_self_assignments(fn: ast.AST) -> int:
+    n = 0
+    for blk in list(blocks_of(fn)):
+        for st in list(blk):
+            if isinstance(st, ast.Assign) and len(st.targets) == 1 and isinstance(st.targets[0], ast.Name) and isinstance(st.value, ast.Name) \
+                    and st.value.id == st.targets[0].id:
+                blk.remove(st)
+                if not blk:
+                    blk.append(ast.Pass())
+                n += 1
+    return n
+
+
 def drop_redundant_rebindings(fn: ast.AST) -> int:
     """`v = E` where an earlier `v = E` of an enclosing block already holds (no store to v and nothing that can change E in between,
     judged over everything textually between the two): the second binding is dropped. Arises when a helper that re-derives a local of
@@ -798,6 +811,7 @@ def _helper_kind(fn: ast.FunctionDef):
     folded = _fold_decision_list(body)
     if folded is not None:
         return ("expr", [ast.Return(value=folded)])
+    body = _fold_guard_returns(body)
     rets = [n for s in body for n in ast.walk(s) if isinstance(n, ast.Return)]
     if all(r is body[-1] for r in rets):
         return ("proc", body)
@@ -820,6 +834,21 @@ def _helper_kind(fn: ast.FunctionDef):
                 and not any(isinstance(n, (ast.Try, ast.With)) for n in ast.walk(body[-2])):
             return ("valsearch", body)
     return None
+
+
+def _fold_guard_returns(body: List[ast.stmt]) -> List[ast.stmt]:
+    """`if c: return` (bare) followed by REST, at the top level of a procedure, is `if not c: REST`."""
+    for i, st in enumerate(body):
+        if isinstance(st, ast.If) and not st.orelse and len(st.body) == 1 and isinstance(st.body[0], ast.Return) and st.body[0].value is None \
+                and i + 1 < len(body) and not any(isinstance(n, ast.Return) for x in body[:i] for n in ast.walk(x)):
+            rest = _fold_guard_returns(body[i + 1:])
+            if rest and isinstance(rest[-1], ast.Return) and rest[-1].value is None:
+                rest = rest[:-1]
+            if any(isinstance(n, ast.Return) for x in rest for n in ast.walk(x)):
+                return body
+            neg = ast.UnaryOp(op=ast.Not(), operand=st.test)
+            return body[:i] + [ast.copy_location(ast.If(test=neg, body=rest or [ast.Pass()], orelse=[]), st)]
+    return body
 
 
 def _fold_decision_list(body: List[ast.stmt]) -> Optional[ast.AST]:
@@ -1183,7 +1212,28 @@ def _install_value_search(m: ast.AST, blk: List[ast.stmt], i: int, v: str, loops
                                 b2.append(ast.Pass())
                             break
                 else:
-                    node.value = ast.Tuple(elts=[ast.Name(id=e, ctx=ast.Load()) for e in elts], ctx=ast.Load())
+                    # the search can bind the unpacked names itself when nobody can tell: they are not mentioned in the search, not read
+                    # between the search and the unpacking, and a binding made at the search is not observable elsewhere
+                    pos2, last2 = _positions(m)
+                    search_nodes = {id(n) for x in new_body for n in ast.walk(x)}
+                    lo2 = min(pos2[id(x)] for x in new_body)
+                    clash = any(isinstance(n, ast.Name) and n.id in tg and id(n) in search_nodes for n in ast.walk(m))
+                    between = any(isinstance(n, ast.Name) and n.id in tg and id(n) not in search_nodes and lo2 < pos2[id(n)] < pos2[id(node)] for n in ast.walk(m))
+                    first_loop = next((x for x in new_body if isinstance(x, (ast.For, ast.While))), None)
+                    if not clash and not between and len(set(tg)) == len(tg) and first_loop is not None and _leak_is_unobservable(m, first_loop, set(tg)):
+                        ren = dict(zip(elts, tg))
+                        for x in new_body:
+                            for n in ast.walk(x):
+                                if isinstance(n, ast.Name) and n.id in ren:
+                                    n.id = ren[n.id]
+                        for b2 in blocks_of(m):
+                            if any(x is node for x in b2):
+                                b2.remove(node)
+                                if not b2:
+                                    b2.append(ast.Pass())
+                                break
+                    else:
+                        node.value = ast.Tuple(elts=[ast.Name(id=e, ctx=ast.Load()) for e in elts], ctx=ast.Load())
         # the tuple itself is no longer needed
         for b2 in list(blocks_of(m)):
             for x in list(b2):
@@ -1205,6 +1255,60 @@ def _inline_value_search(m, call, body, mapping, pre) -> bool:
                     return False
                 return _install_value_search(m, blk, i, s.targets[0].id, stmts[0], list(pre))
     return False
+
+
+def loop_binding_is_private(fn: ast.AST, loop: ast.For, name: str) -> bool:
+    """The binding of `name` made by `loop` (its target) is seen by nobody outside the loop: every read of the name outside it either
+    comes before the loop and outside every loop around it, or is preceded on its own path by another binding (an assignment or another
+    loop's target) that follows the loop / starts inside the shared enclosing loop."""
+    parents: Dict[int, ast.AST] = {}
+    for p in ast.walk(fn):
+        for ch in ast.iter_child_nodes(p):
+            parents[id(ch)] = p
+    pos, last = _positions(fn)
+    inside = {id(n) for n in ast.walk(loop)}
+    enc = []
+    q = parents.get(id(loop))
+    while q is not None:
+        if isinstance(q, (ast.For, ast.While)):
+            enc.append(q)
+        q = parents.get(id(q))
+
+    def binds(st, nm):
+        return isinstance(st, ast.Assign) and any(isinstance(t, ast.Name) and t.id == nm for tg in st.targets for t in ast.walk(tg))
+
+    def dominated(n, lo):
+        child = n
+        p = parents.get(id(child))
+        while p is not None:
+            if isinstance(p, ast.For) and p is not loop and any(child is x for x in p.body) and pos[id(p)] > lo \
+                    and any(isinstance(t, ast.Name) and t.id == n.id for t in ast.walk(p.target)):
+                return True
+            for f in ("body", "orelse", "finalbody"):
+                b = getattr(p, f, None)
+                if isinstance(b, list) and any(child is x for x in b):
+                    k = [j for j, x in enumerate(b) if x is child][0]
+                    if any(binds(x, n.id) and pos[id(x)] > lo for x in b[:k]):
+                        return True
+            child, p = p, parents.get(id(p))
+        return False
+    for n in ast.walk(fn):
+        if not (isinstance(n, ast.Name) and n.id == name and isinstance(n.ctx, ast.Load)) or id(n) in inside:
+            continue
+        if pos[id(n)] > last[id(loop)]:
+            if not dominated(n, last[id(loop)]):
+                return False
+        else:
+            loops_n = []
+            q = parents.get(id(n))
+            while q is not None:
+                if isinstance(q, (ast.For, ast.While)):
+                    loops_n.append(q)
+                q = parents.get(id(q))
+            shared = [l for l in enc if any(l is x for x in loops_n)]
+            if shared and not dominated(n, pos[id(shared[0])]):
+                return False
+    return True
 
 
 def _leak_is_unobservable(fn: ast.AST, s: ast.stmt, names: Set[str]) -> bool:
